@@ -145,6 +145,10 @@ func zoneOf0(name string) *time.Location {
 	case "UTC":
 		return time.UTC
 	}
+	if i := strings.Index(name, "<-"); i >= 0 {
+		// "A<-B": a context that carried zone B and was then given zone A: the zone in force is A
+		return zoneOf(name[:i])
+	}
 	if name[0] == '+' || name[0] == '-' {
 		sign := 1
 		if name[0] == '-' {
@@ -192,6 +196,11 @@ func (c runCfg) context() context.Context {
 	ctx := c.ctx
 	if ctx == nil {
 		ctx = context.Background()
+	}
+	if i := strings.Index(c.zone, "<-"); i >= 0 {
+		if inner := zoneOf(c.zone[i+2:]); inner != nil {
+			ctx = types.ContextWithTZ(ctx, inner)
+		}
 	}
 	if z := zoneOf(c.zone); z != nil {
 		ctx = types.ContextWithTZ(ctx, z)
